@@ -38,8 +38,8 @@ Run time is bounded: per-sample SIGALRM limit (a BaseException), `--max-seconds`
 (default 14 + 0.2*n).  Deterministic in (seed, n).
 
 NEGATIVE CONTROL (every invocation): (0) unmodified real code and driver -> no disagreement on the
-fixed cases; (1..7) the real method is replaced IN THIS PROCESS by a copy of its own source with one
-realistic edit; each must be REPORTED as a disagreement on at least one fixed case; (last) one
+fixed cases; (1..8) the real method is replaced IN THIS PROCESS by a copy of its own source with one
+realistic edit (the 8th REVERTS the repair /repo 98a89ee of Generic_Binding.match); each must be REPORTED as a disagreement on at least one fixed case; (last) one
 driver answer flipped -> reported.  A control that does not behave like this makes the exit code 1.
 
     timeout 600 /venv/bin/python -m fv.cosim_header --seed 0 --n 200
@@ -1333,6 +1333,10 @@ MUTATIONS = [
     ("Language_Binding_Spec.tostr prints NAME= without blanks", F3, "Language_Binding_Spec", "tostr",
      [("BIND(C, NAME = %s)", "BIND(C, NAME=%s)")],
      [("cls", "f2003", "Language_Binding_Spec", "bind(c, name='x')")]),
+    ("Generic_Binding.match: the repair 98a89ee reverted (line[i + 3:] again)", F3, "Generic_Binding", "match",
+     [("Binding_Name_List(line[i + 2 :].lstrip())", "Binding_Name_List(line[i + 3 :].lstrip())")],
+     [("cls", "f2003", "Generic_Binding", "generic :: a =>xb"), ("cls", "f2003", "Generic_Binding", "generic :: a=>b"),
+      ("cls", "f2008", "Generic_Binding", "generic::a=>b")]),
 ]
 
 CONTROL_CASES = [
@@ -1343,7 +1347,8 @@ CONTROL_CASES = [
     ("cls", "f2003", "Language_Binding_Spec", "bind(c, name='x')"),
     ("cls", "f2003", "Function_Stmt", "elemental function f() bind(c)"),
     ("cls", "f2008", "Procedure_Stmt", "module procedure :: a, b"), ("cls", "f2008", "Block_Stmt", "block"),
-    ("cls", "f2003", "Generic_Binding", "generic :: a =>xb"),
+    ("cls", "f2003", "Generic_Binding", "generic :: a =>xb"), ("cls", "f2003", "Generic_Binding", "generic :: a=>b"),
+    ("cls", "f2008", "Generic_Binding", "generic::a=>b"), ("cls", "f2003", "Generic_Binding", "generic xyz :: a => b"),
     ("cls", "f2003", "Proc_Component_Def_Stmt", "procedure(f), pointer :: p => null()"),
     ("print", "f2003", PRINT_FIXED[0]), ("print", "f2008", PRINT_FIXED[2]),
 ]
